@@ -1,10 +1,24 @@
 (* C24 — cffi-gen-src output is byte-identical to FFI.emit_c_code.  Statements only.  Label: PARTIAL.
 
-   The property is an I/O equivalence between two programs.  What is proved: the UTF-8 codec used on
-   both sides is lossless on all strings of Unicode scalar values, and the two pipelines are the same
-   composition around cffi's own text-to-text work (make_ffi / find_ffi / emit: Section variables), given
-   UTF-8 file and stdout encodings and POSIX newline handling.  That the real programs are these
-   compositions is established by sampling (tools/props/c24.py), not by proof.
+   The property is an I/O equivalence between two real programs (the command-line tool, in its two invocations
+   and two output modes, and FFI.emit_c_code).  NO theorem here states that equivalence about the code.
+
+   What is proved:
+     C24_utf8_roundtrip, C24_utf8_total_on_scalar_values, C24_output_decodes_to_emitted
+         the one substantive result: the UTF-8 codec through which text enters and leaves on both sides is lossless
+         on every string of Unicode scalar values (and only those are encodable).
+     C24_read_sources_is_direct(_no_cr), C24_exec_python_is_direct
+         equalities between two HAND-WRITTEN compositions (C24/Model.v, same author) around abstract make_ffi /
+         find_ffi / emit.  They record the argument — bytes -> text (UTF-8 + universal newlines) -> cffi ->
+         text -> bytes is the same function on both sides when the encodings are UTF-8 — and nothing more: that the
+         real programs are these compositions is NOT proved.  Their value lies entirely in the correspondence.
+   Decided by the correspondence of tools/props/c24.py only (bytes and exit statuses compared on generated inputs):
+     "'cffi-gen-src read-sources' writes exactly the bytes that FFI.emit_c_code() produces",
+     "'cffi-gen-src exec-python' ... the FFI the script binds, directly or through a callable, under --ffi-var",
+     "'python -m cffi.gen_src' behaves identically",
+     "an output of '-' sends the same bytes to stdout"   (this last clause FAILS on the real tool: stdout starts
+                                                          with a stray 'generating <_io.StringIO ...>' line —
+                                                          known finding stdout_generating_line, with a fix diff).
 
    Reading recorded: "cdef text" / "prelude" is the text Python obtains from the input file (UTF-8
    decoding with universal newlines): a '\r' in an input file reaches cffi as '\n'
